@@ -186,15 +186,21 @@ func runC03(r *engine.Run) {
 	goodCmd := func() *lorawan.MACCommand { return &lorawan.MACCommand{CID: lorawan.LinkCheckReq} }
 	badForms := []badForm{
 		{"frm=command,fport=absent", func() *lorawan.MACPayload { return &lorawan.MACPayload{FRMPayload: []lorawan.Payload{goodCmd()}} }},
-		{"frm=command,fport=5", func() *lorawan.MACPayload { return &lorawan.MACPayload{FPort: &p5, FRMPayload: []lorawan.Payload{goodCmd()}} }},
-		{"frm=out-of-range-command,fport=0", func() *lorawan.MACPayload { return &lorawan.MACPayload{FPort: &p0, FRMPayload: []lorawan.Payload{badCmd()}} }},
+		{"frm=command,fport=5", func() *lorawan.MACPayload {
+			return &lorawan.MACPayload{FPort: &p5, FRMPayload: []lorawan.Payload{goodCmd()}}
+		}},
+		{"frm=out-of-range-command,fport=0", func() *lorawan.MACPayload {
+			return &lorawan.MACPayload{FPort: &p0, FRMPayload: []lorawan.Payload{badCmd()}}
+		}},
 		{"frm=command+out-of-range-command,fport=0", func() *lorawan.MACPayload {
 			return &lorawan.MACPayload{FPort: &p0, FRMPayload: []lorawan.Payload{goodCmd(), badCmd()}}
 		}},
 		{"frm=bytes+command,fport=5", func() *lorawan.MACPayload {
 			return &lorawan.MACPayload{FPort: &p5, FRMPayload: []lorawan.Payload{&lorawan.DataPayload{Bytes: []byte{1, 2, 3}}, goodCmd()}}
 		}},
-		{"fopts=out-of-range-command", func() *lorawan.MACPayload { return &lorawan.MACPayload{FHDR: lorawan.FHDR{FOpts: []lorawan.Payload{badCmd()}}} }},
+		{"fopts=out-of-range-command", func() *lorawan.MACPayload {
+			return &lorawan.MACPayload{FHDR: lorawan.FHDR{FOpts: []lorawan.Payload{badCmd()}}}
+		}},
 		{"fopts=command+out-of-range-command", func() *lorawan.MACPayload {
 			return &lorawan.MACPayload{FHDR: lorawan.FHDR{FOpts: []lorawan.Payload{goodCmd(), badCmd()}}}
 		}},
